@@ -43,7 +43,7 @@ def value_sets(path, go, rng):
         return [{"path": path, "vk": "float64", "bits": str(f64bits(v))} for v in (0.0, -0.0, 0.5, 1.0, 1.5, 2.5, -2.5, 10.0, 100.0, 1e300, float("inf"), float("nan"))]
     if go == "string":
         return [{"path": path, "vk": "string", "str": s.encode().hex()} for s in ("", "a", "ab", "abc", "prefix_x", "x_suffix", "héllo", "日本語", "a1b2", "ABC", "12", "admin", "x y", "90s", "1m30s",
-                                                                                  "a  b", "a b", "a\tb", " a", "a ", "A", "x  y", "a\\b", "a\"b", "a'b")] + \
+                                                                                  "[", "a+(", "a  b", "a b", "a\tb", " a", "a ", "A", "x  y", "a\\b", "a\"b", "a'b")] + \
                [{"path": path, "vk": "string", "str": "ff"}]
     if go == "bool":
         return [{"path": path, "vk": "bool", "bool": b} for b in (True, False)]
@@ -74,7 +74,7 @@ COMPANION_DEFAULT = {
 COMPANION_ALT = {
     "A": [{"vk": "int", "int": "0"}, {"vk": "int", "int": "-7"}], "B": [{"vk": "int", "int": "0"}, {"vk": "int", "int": "-128"}],
     "U": [{"vk": "int", "int": "0"}], "L": [{"vk": "int", "int": "0"}], "F": [{"vk": "float64", "bits": str(f64bits(0.0))}],
-    "S": [{"vk": "string", "str": ""}], "Ok": [{"vk": "bool", "bool": False}], "Tags": [{"vk": "strs", "strelems": []}],
+    "S": [{"vk": "string", "str": ""}, {"vk": "string", "str": b"[".hex()}, {"vk": "string", "str": b"a+(".hex()}, {"vk": "string", "str": b"^a".hex()}], "Ok": [{"vk": "bool", "bool": False}], "Tags": [{"vk": "strs", "strelems": []}],
     "Nums": [{"vk": "ints", "intelems": []}, {"vk": "ints", "intelems": [0, 0]}], "M": [{"vk": "map", "strelems": [], "intelems": []}], "D": [{"vk": "int", "int": "0"}],
 }
 
@@ -264,6 +264,9 @@ FIXED = [
     ("string", "value.endsWith('a ')"), ("string", "value   ==   'a'"), ("int", "value>1&&value<10"), ("int", "value\t>\t1"), ("string", "value == 'A'"),
     ("string", "value == 'a' + ' ' + ' ' + 'b'"), ("string", "value.matches('a  b')"), ("string", "value in ['a  b', ' a', 'a ']"), ("string", "value == \"a'b\""),
     ("[]string", "value.exists(x, x == 'a  b')"), ("string", "  value != 'x  y'  "),
+    # patterns only known at run time (D35, fixed): guarded regexp.Compile
+    ("string", "value.matches(this.S)"), ("string", "matches(this.S, value)"), ("string", "value.matches(this.S + '$')"), ("[]string", "value.all(x, x.matches(this.S))"),
+    ("string", "this.S.matches(value)"), ("string", "value.matches('^a' + 'b')"),
     ("int", "value != 0 && 10 / value > 1"), ("int", "value == 0 || 10 % value == 1"), ("string", "value.contains('\"')"), ("string", "value == 'a\\\\b'"),
 ]
 
